@@ -356,12 +356,12 @@ async fn judge(
             Err(e) => return Err(format!("discover() returned an error: {e}")),
         };
         polls += 1;
-        // a burst of reads back to back (every fourth history): readers and the watcher share the
+        // a burst of reads back to back: readers and the watcher share the
         // offer, and a read that coincides with an update still gets an offer, not nothing
-        if h.id % 4 == 2 && info.index >= 0 && dropped_meanwhile.is_none() {
+        if info.index >= 0 && dropped_meanwhile.is_none() {
             let steady: Vec<String> = reference.offered_names().into_iter().filter(|n| !info.changed.contains(n) && !info.causes.contains_key(n) && !skip.contains(n)).collect();
             if !steady.is_empty() {
-                for _ in 0..400 {
+                for _ in 0..800 {
                     let quick = match adapter.discover().await {
                         Ok(t) => t,
                         Err(e) => return Err(format!("discover() returned an error: {e}")),
